@@ -1,6 +1,6 @@
 package parsigdb
 
-// C18 (partial signature store): StoreInternal / StoreExternal with threshold 2, two internal and two threshold
+// C18 (partial signature store): StoreInternal / StoreExternal with threshold 2, three internal and three threshold
 // subscribers. Parties: the two sets handed in, the private entries map, every subscriber's argument.
 
 import (
@@ -23,7 +23,7 @@ func c18spec(u alias.Unit, master core.SignedData, internal bool) alias.Spec {
 	return alias.Spec{Path: path, Type: u.Name, Modes: []string{alias.Input, alias.SubArg}, Run: func(w *alias.World) {
 		ctx := context.Background()
 		db := NewMemDB(2, alias.NewNopDeadliner(), NewMemDBMetadata(12, time.Now()))
-		for _, n := range []string{"internal-sub1", "internal-sub2"} {
+		for _, n := range []string{"internal-sub1", "internal-sub2", "internal-sub3"} {
 			n := n
 			db.SubscribeInternal(func(_ context.Context, _ core.Duty, set core.ParSignedDataSet) error {
 				w.Sub(n, set)
@@ -31,7 +31,7 @@ func c18spec(u alias.Unit, master core.SignedData, internal bool) alias.Spec {
 			})
 		}
 		fired := 0
-		for _, n := range []string{"threshold-sub1", "threshold-sub2"} {
+		for _, n := range []string{"threshold-sub1", "threshold-sub2", "threshold-sub3"} {
 			n := n
 			db.SubscribeThreshold(func(_ context.Context, _ core.Duty, out map[core.PubKey][]core.ParSignedData) error {
 				fired++
@@ -60,7 +60,7 @@ func c18spec(u alias.Unit, master core.SignedData, internal bool) alias.Spec {
 		err = db.StoreExternal(ctx, duty, set2)
 		w.Outcome("store-second", err)
 		w.MutateInputs()
-		if w.Mode == alias.Clean && fired != 2 {
+		if w.Mode == alias.Clean && fired != 3 {
 			w.Fail("threshold subscribers not called (%d): %v", fired, err)
 			return
 		}
